@@ -421,6 +421,17 @@ def rename(tables, args, kw):
     return _table(outhdr, rows)
 
 
+def rename_setitem(tables, args, kw):
+    """view = rename(t[, {initial}]); view[key] = new ...: the assignments extend the ONE spec of the view, which is
+    applied to the input header as a whole."""
+    spec = {}
+    if len(args) > 1 and args[1]:
+        spec.update(dict(args[1]))
+    for k, v in args[0]:
+        spec[k] = v
+    return rename(tables, (spec,), kw)
+
+
 def setheader(tables, args, kw):
     hdr, rows = _split(tables[0])
     return _table(args[0], rows)
@@ -873,7 +884,7 @@ REF = {
     'cut': cut, 'cutout': cutout, 'movefield': movefield, 'cat': cat, 'stack': stack, 'annex': annex,
     'addfield': addfield, 'addfields': addfields, 'addcolumn': addcolumn, 'addrownumbers': addrownumbers,
     'addfieldusingcontext': addfieldusingcontext,
-    'rename': rename, 'setheader': setheader, 'extendheader': extendheader, 'pushheader': pushheader,
+    'rename': rename, 'rename[]=': rename_setitem, 'setheader': setheader, 'extendheader': extendheader, 'pushheader': pushheader,
     'skip': skip, 'prefixheader': prefixheader, 'suffixheader': suffixheader, 'sortheader': sortheader,
     'convert': convert, 'convert[]=': convert_setitem, 'convertall': convertall, 'replace': replace,
     'replaceall': replaceall, 'update': update, 'convertnumbers': convertnumbers, 'format': format,
@@ -891,7 +902,7 @@ REF = {
 ONE_TO_ONE = {
     'cut': 'n', 'cutout': 'n', 'movefield': 'n', 'cat': 'sum', 'stack': 'sum', 'annex': 'max',
     'addfield': 'n', 'addfields': 'n', 'addrownumbers': 'n', 'addfieldusingcontext': 'n',
-    'rename': 'n', 'setheader': 'n', 'extendheader': 'n', 'pushheader': 'n+1',
+    'rename': 'n', 'rename[]=': 'n', 'setheader': 'n', 'extendheader': 'n', 'pushheader': 'n+1',
     'prefixheader': 'n', 'suffixheader': 'n', 'sortheader': 'n',
     'convert': 'n', 'convert[]=': 'n', 'convertall': 'n', 'replace': 'n', 'replaceall': 'n', 'update': 'n',
     'convertnumbers': 'n', 'format': 'n', 'formatall': 'n', 'interpolate': 'n', 'interpolateall': 'n',
